@@ -21,7 +21,7 @@ func init() {
 			"(8) all WorkerGrp.Do* delegate to ws[locHash(k)] with their own arguments and locHash(k) lies in [0, muxSize) for every key; the worker loop dequeues with PopAnyway and handles each item once. " +
 			"NOT decided: coherence when a callback fails after partially changing the store; ordering across workers; same-key serialisation under every schedule (follows informally from one FIFO worker per key, C12/C14).",
 		Assumptions: []string{"muxSize >= 1", "callbacks named load*/isNotFound* do not modify the store"},
-		Floors:      map[string]int{"C15.dispatch": 7, "C15.reply-once": 7, "C15.cache-set": 6, "C15.cache-delete": 1, "C15.refresh-on-hit": 5, "C15.dup-add": 1, "C15.key": 7, "C15.cache-writer": 7, "C15.route": 7, "C15.hash-range": 1, "C15.worker-loop": 1, "C15.facade": 2},
+		Floors:      map[string]int{"C15.dispatch": 7, "C15.reply-once": 7, "C15.cache-set": 6, "C15.cache-delete": 1, "C15.refresh-on-hit": 5, "C15.dup-add": 1, "C15.key": 7, "C15.cache-writer": 7, "C15.route": 7, "C15.hash-range": 1, "C15.worker-loop": 1, "C15.facade": 4, "C15.reply-channel": 3},
 		Run:         runC15,
 	})
 }
@@ -371,6 +371,7 @@ func runC15(c *Ctx) {
 	c.checkMuxRouting(inl)
 	c.checkMuxLoop(inl)
 	c.checkMuxFacade()
+	c.checkMuxReplyChannel()
 }
 
 func (c *Ctx) checkMuxRouting(inl func(*ssa.Function, int) bool) {
@@ -633,5 +634,164 @@ func (c *Ctx) checkMuxFacade() {
 				c.holds("C15.facade", cons, fn.Pos(), fmt.Sprintf("%d paths reach the underlying cache with the caller's key", n))
 			}
 		}
+	}
+}
+
+// checkMuxReplyChannel: the plumbing the handler rules rely on. SetR sends exactly (r, err) on the call's own
+// 1-buffered channel; R hands back the received pair in that order, or (nil, ctx.Err()) on the context branch;
+// every operation's GetK returns the key its constructor stored; FacadeLRU.Peek/Get are the underlying Peek/Get
+// (Peek must not refresh recency: the worker peeks before deciding).
+func (c *Ctx) checkMuxReplyChannel() {
+	const rel = "syncx/pipe/mux"
+	noInl := func(*ssa.Function, int) bool { return false }
+	cfg := TraceConfig{Inline: noInl}
+	rChan := c.mustField(rel, "AsyncC", "rChan")
+	if rChan == nil {
+		return
+	}
+	if fn := c.mustFn(rel, "(*AsyncC).SetR"); fn != nil {
+		ts, _ := c.Trace(fn, cfg)
+		good, n := true, 0
+		for _, t := range ts {
+			if t.End != EndReturn {
+				continue
+			}
+			n++
+			sends := 0
+			for _, e := range t.Events {
+				if e.Kind == EvSend {
+					sends++
+					_, onR := isInitOfField(e.Addr, rChan)
+					v := e.Val
+					if !(onR && v.Kind == KStruct && len(v.Args) == 2 && v.Args[0].Key() == "$"+fn.Params[1].Name() && v.Args[1].Key() == "$"+fn.Params[2].Name()) {
+						good = false
+					}
+				}
+			}
+			if sends != 1 {
+				good = false
+			}
+		}
+		c.check(good && n > 0, "C15.reply-channel", "(*mux.AsyncC).SetR", fn.Pos(), "one send of (r, err) on rChan", "SetR does not send exactly the pair (r, err) it was given on the call's result channel: the caller receives a value or an error the handler did not produce (e.g. a failed store operation reported as success)")
+	}
+	if fn := c.mustFn(rel, "(*AsyncC).R"); fn != nil {
+		ts, _ := c.Trace(fn, cfg)
+		good, recv, done := true, 0, 0
+		for _, t := range ts {
+			if t.End != EndReturn || len(t.Ret) != 2 {
+				continue
+			}
+			var sel *Event
+			for _, e := range t.Events {
+				if e.Kind == EvSelect {
+					sel = e
+				}
+			}
+			if sel == nil {
+				good = false
+				continue
+			}
+			if _, onR := isInitOfField(sel.Addr, rChan); onR {
+				recv++
+				a, b := t.Ret[0], t.Ret[1]
+				if !(a.Kind == KField && a.Field.Name() == "r" && b.Kind == KField && b.Field.Name() == "err" && a.Args[0].Key() == b.Args[0].Key()) {
+					good = false
+				}
+			} else {
+				done++
+				errOK := false
+				for _, e := range t.Events {
+					if e.Kind == EvCall && e.callName() == "(context.Context).Err" && e.Res.Key() == t.Ret[1].Key() {
+						errOK = true
+					}
+				}
+				if !t.Ret[0].isNilConst() || !errOK {
+					good = false
+				}
+			}
+		}
+		c.check(good && recv > 0 && done > 0, "C15.reply-channel", "(*mux.AsyncC).R", fn.Pos(), "(re.r, re.err) or (nil, ctx.Err())", "R does not hand back the received (value, error) pair unchanged, or (nil, ctx.Err()) when the context ends first")
+	}
+	if fn := c.mustFn(rel, "NewAsync"); fn != nil {
+		ts, _ := c.Trace(fn, cfg)
+		good := false
+		for _, t := range ts {
+			for _, e := range t.Events {
+				if e.Kind == EvStore && e.Addr.isFieldAddrOf(rChan) && e.Val.Kind == KAlloc && len(e.Val.Args) >= 1 {
+					if k, isK := e.Val.Args[0].intConst(); isK && k >= 1 {
+						good = true
+					}
+				}
+			}
+		}
+		c.check(good, "C15.reply-channel", "mux.NewAsync", fn.Pos(), "rChan has capacity >= 1", "the result channel is not buffered: the worker blocks in SetR whenever the caller has already left on its context, and every later operation of that worker waits behind it")
+	}
+	// GetK and the constructors
+	for _, fn := range c.funcsOf(rel) {
+		if fn.Name() != "GetK" || fn.Signature.Recv() == nil || fn.Synthetic != "" {
+			continue
+		}
+		cons := c.fname(fn)
+		ts, _ := c.Trace(fn, cfg)
+		good := len(ts) > 0
+		for _, t := range ts {
+			r := t.Ret[0]
+			if !(t.End == EndReturn && r.Kind == KInit && r.Args[0].Kind == KFieldAddr && r.Args[0].Field.Name() == "k" && r.Args[0].Args[0].Key() == "$"+fn.Params[0].Name()) {
+				good = false
+			}
+		}
+		c.check(good, "C15.key", cons, fn.Pos(), "returns the operation's k", "GetK does not return the operation's own key field: the worker routes, caches and replies under a key the caller did not name")
+	}
+	for _, fn := range c.funcsOf(rel) {
+		if fn.Parent() != nil || fn.Signature.Recv() != nil || !strings.HasPrefix(fn.Name(), "New") || fn.Signature.Results().Len() != 1 || fn.Signature.Results().At(0).Type().String() != c.ModPath+"/"+rel+".OpCode" {
+			continue
+		}
+		var kp *ssa.Parameter
+		for _, p := range fn.Params {
+			if p.Name() == "k" {
+				kp = p
+			}
+		}
+		if kp == nil {
+			continue
+		}
+		ts, _ := c.Trace(fn, cfg)
+		good := false
+		for _, t := range ts {
+			for _, e := range t.Events {
+				if e.Kind == EvStore && e.Addr.Kind == KFieldAddr && e.Addr.Field.Name() == "k" {
+					good = e.Val.Key() == "$k"
+				}
+			}
+		}
+		c.check(good, "C15.key", "mux."+fn.Name(), fn.Pos(), "k stored in the operation", "the constructor does not store its key argument in the operation's key field")
+	}
+	// FacadeLRU read side
+	for m, under := range map[string]string{"Peek": "Peek", "Get": "Get"} {
+		fn := c.mustFn(rel, "(*FacadeLRU)."+m)
+		if fn == nil {
+			continue
+		}
+		ts, _ := c.Trace(fn, cfg)
+		good, n := true, 0
+		for _, t := range ts {
+			if t.End != EndReturn {
+				continue
+			}
+			n++
+			calls := 0
+			for _, e := range t.Events {
+				if e.Kind == EvCall && e.Callee != nil && recvNamedName(e.Callee) == "LRUCache" {
+					calls++
+					if e.Callee.Name() != under || len(e.Args) < 2 || e.Args[1].Key() != "$"+fn.Params[1].Name() {
+						good = false
+					}
+				}
+			}
+			if calls != 1 {
+				good = false
+			}
+		}
+		c.check(good && n > 0, "C15.facade", "(*mux.FacadeLRU)."+m, fn.Pos(), "underlying "+under+"(key)", "the LRU facade's "+m+" is not the underlying cache's "+under+" of the same key: the worker's peek refreshes recency (or its get does not), so the cache evicts other entries than the ones the coherence rules assume are kept")
 	}
 }
